@@ -66,6 +66,12 @@ Third round (other source files, table UNITS; one generated file per unit):
 * netaddr/strategy/__init__.py -> pysrc_strategy_gen.v: a word sequence is a list of ints.  `len(l)` = Z.of_nat (length l);
   `for _ in range(n)` = a Fixpoint on the nat Z.to_nat n (the loop variable must not be read); `for i, x in enumerate(l)` carries
   the counter i = 0, 1, ..; `reversed(l)` = rev l where it is consumed at once (for / enumerate / tuple); `tuple(l)` = l.
+  Text (parameters declared `str`, string literals) is a Coq string: `a == b` / `!=` = String.eqb, `len(s)` = str_len,
+  `s.replace(a, b)` = replace, `s.startswith(p)` = starts_with (Base/PyStr.v), `s[k:]` = py_str_from k, `int(s, 2)` = py_int_o
+  (ValueError), `bin(e)` = py_bin, `CHARSET.issuperset(s)` for a module-level frozenset([..]) of characters = py_chars_in
+  (Model/SrcPreludeStr.v); `_is_str(x)` is decided by the type (compat binds it to `lambda x: isinstance(x, ..)`);
+  `try: <if/return/raise, no assignment> / except E: pass` = py_except_pass E (body answering inl r | inr tt);
+  `try: .. / except NameError: ..` around code that reads only locals and known builtins is its body (the handler is dead).
 * netaddr/strategy/eui48.py, eui64.py -> pysrc_eui48_gen.v, pysrc_eui64_gen.v: a dialect parameter (`optdialect`) is None or the
   pair (word_size, num_words) of a dialect class; `if dialect is None: dialect = DEFAULT` binds the pair; DEFAULT is a generated
   constant read from the class bodies (int constant expressions, evaluated per class body, looked up through the bases).  A function
@@ -147,9 +153,12 @@ UNITS = [
      [(c, m, t) for c in ("IPNetwork", "IPRange") for m, t in (
          ("__len__", {}), ("__getitem__:int", {"index": "int"}), ("__getitem__:slice", {"index": "slice"}))]),
     # the word functions of netaddr/strategy/__init__.py; a sequence of words is a list of ints
-    ("netaddr/strategy/__init__.py", "pysrc_strategy_gen.v", "strategy_", "",
+    ("netaddr/strategy/__init__.py", "pysrc_strategy_gen.v", "strategy_", " Base.PyStr Model.SrcPreludeStr",
      [(None, f, {"words": "list int", "int_val": "int", "word_size": "int", "num_words": "int"}) for f in (
-         "valid_words", "int_to_words", "words_to_int")]),
+         "valid_words", "int_to_words", "words_to_int")] +
+     # the bit-string / binary-literal functions: text is a Coq string (Base/PyStr.v), its operations are SrcPreludeStr symbols
+     [(None, f, {"bits": "str", "bin_val": "str", "word_sep": "str", "width": "int", "int_val": "int"}) for f in (
+         "valid_bits", "bits_to_int", "valid_bin", "bin_to_int", "int_to_bin")]),
     # the word functions of the two EUI strategy modules (they pick the dialect and call the functions above)
     ("netaddr/strategy/eui48.py", "pysrc_eui48_gen.v", "eui48_", "",
      [(None, f, {"words": "list int", "int_val": "int", "dialect": "optdialect"}) for f in ("valid_words", "int_to_words", "words_to_int")]),
@@ -204,7 +213,8 @@ RESERVED = set("ver w v p s e in let if then else match with end fun forall exis
                "py_pop operand OAddr ONet ORng OOther struct "
                "py_nonempty py_sorted_desc py_set_remove py_set_of_list py_set_union py_flat_map_o net_key_eqb py_list_subnet "
                "py_cidr_merge inl inr sum py_except ssize_max py_slice_indices py_range_len iterator ItEmpty ItIprange "
-               "eui ever evalue edialect mk_eui existsb py_truthy src_contains_row "
+               "eui ever evalue edialect mk_eui existsb py_truthy src_contains_row string String py_str_from py_chars_in py_int_o "
+               "py_bin py_except_pass replace starts_with str_len chars str_of "
                # constructors / constants of the Coq prelude: a pattern variable of that name would be read as the constructor
                "left right inl inr pair tt I conj eq_refl xH xO xI Z0 Zpos Zneg Lt Gt Eq ex_intro exist inleft inright "
                "Build_net AddrFormatError AddrConversionError ValueError TypeError IndexError KeyError StructError "
@@ -217,7 +227,7 @@ CMP = {ast.Lt: "(%s <? %s)", ast.LtE: "(%s <=? %s)", ast.Gt: "(%s >? %s)", ast.G
 COQTY = {"int": "Z", "bool": "bool", "tuple": "(list Z)", "obj": "(Z * Z)", "net": "net", "self": "Z", "sarg": "sarg",
          "operand": "operand", "unit": "unit", "optint": "(option Z)", "slice": "(option Z * option Z * option Z)",
          "iterator": "iterator", "eui": "eui", "dialect": "(Z * Z)", "optdialect": "(option (Z * Z))", "row": "(Z * Z * Z * Z)",
-         "optbool": "(option bool)"}
+         "optbool": "(option bool)", "str": "string"}
 # the kinds of an `operand` (SrcPrelude.operand), their fields and the class each one stands for
 OPERAND = (("OAddr", ("ver", "v")), ("ONet", ("ver", "v", "p")), ("ORng", ("ver", "s", "e")), ("OOther", ()))
 KINDCLASS = {"OAddr": "IPAddress", "ONet": "IPNetwork", "ORng": "IPRange"}
@@ -325,7 +335,7 @@ def is_set(t):
 
 def is_value(t):
     """types whose terms are first-class Coq values that a loop or a join can carry"""
-    return t in ("int", "bool", "net", "optint", "iterator", "eui", "dialect", "optdialect", "row", "optbool") or (isinstance(t, tuple) and t[0] in ("list", "tup", "set"))
+    return t in ("int", "bool", "net", "optint", "iterator", "eui", "dialect", "optdialect", "row", "optbool", "str") or (isinstance(t, tuple) and t[0] in ("list", "tup", "set"))
 
 
 def parse_type(s):
@@ -404,6 +414,22 @@ def compat_ok(name):
                  if not isinstance(n, ast.For) or t in ast.walk(n.target)))]
     if not binds or any(not (isinstance(b, ast.Assign) and len(b.targets) == 1 and isinstance(b.targets[0], ast.Name)
                              and dotted(b.value) in COMPAT.get(name, ())) for b in binds):
+        bad(binds[-1] if binds else None, "%s is not bound in compat.py the way the translator assumes" % name, fn)
+    return True
+
+
+def compat_lambda_isinstance(name):
+    """is `name` bound in netaddr/compat.py only as `name = lambda x: isinstance(x, ...)`?"""
+    fn = "netaddr/compat.py"
+    text = open(os.path.join(REPO, fn), encoding="utf-8").read()
+    binds = [n for n in ast.walk(ast.parse(text)) if (isinstance(n, (ast.FunctionDef, ast.ClassDef)) and n.name == name)
+             or (isinstance(n, ast.alias) and (n.asname or n.name) == name)
+             or (isinstance(n, (ast.Assign, ast.AugAssign, ast.AnnAssign)) and any(
+                 isinstance(t, ast.Name) and t.id == name and isinstance(t.ctx, ast.Store) for t in ast.walk(n)))]
+    ok = lambda b: (isinstance(b, ast.Assign) and len(b.targets) == 1 and isinstance(b.targets[0], ast.Name) and isinstance(b.value, ast.Lambda)
+                    and len(b.value.args.args) == 1 and isinstance(b.value.body, ast.Call) and dotted(b.value.body.func) == "isinstance"
+                    and len(b.value.body.args) == 2 and dotted(b.value.body.args[0]) == b.value.args.args[0].arg)
+    if not binds or not all(ok(b) for b in binds):
         bad(binds[-1] if binds else None, "%s is not bound in compat.py the way the translator assumes" % name, fn)
     return True
 
@@ -857,6 +883,8 @@ class Fn:
                 return ("bool", "true" if node.value else "false")
             if isinstance(node.value, int):
                 return ("int", literal(node, self.mod.text))
+            if isinstance(node.value, str) and all(32 <= ord(c) < 127 for c in node.value):
+                return ("str", "\"%s\"%%string" % node.value.replace('"', '""'))
             bad(node, "constant %r" % type(node.value).__name__)
         if isinstance(node, ast.Name):
             if node.id in env:
@@ -951,6 +979,13 @@ class Fn:
             # e in C.ATTR for a class-level tuple of int literals
             x = self.int_(node.left, env)
             return ("bool", "(existsb (Z.eqb %s) [%s])" % (x, "; ".join(self.tr.class_tuple(node.comparators[0]))))
+        if isinstance(node, ast.Compare) and len(node.ops) == 1 and isinstance(node.ops[0], (ast.Eq, ast.NotEq)):
+            snap, pre0 = self.snapshot(), list(self.pre)
+            (ta, a), (tb, b) = self.ex(node.left, env), self.ex(node.comparators[0], env)
+            if ta == "str" and tb == "str":
+                return ("bool", ("(String.eqb %s %s)" if isinstance(node.ops[0], ast.Eq) else "(negb (String.eqb %s %s))") % (a, b))
+            self.restore(snap)
+            self.pre = pre0
         if isinstance(node, ast.Compare):
             xs = [self.int_(x, env) for x in [node.left] + node.comparators[:1]]
             self.nohoist += 1                                   # a <= b <= c evaluates c only if a <= b
@@ -1073,6 +1108,11 @@ class Fn:
     def subscript(self, node, env):
         ty, t = self.ex(node.value, env)
         sl = node.slice
+        if isinstance(sl, ast.Slice) and ty == "str":
+            k = const_int(sl.lower) if sl.lower is not None else None
+            if k is None or k < 0 or sl.upper is not None or sl.step is not None:
+                bad(node, "string slice other than s[k:] with a literal k >= 0")
+            return ("str", "(py_str_from %d %s)" % (k, t))
         if isinstance(sl, ast.Slice):
             if sl.lower is None and sl.upper is None and const_int(sl.step) == -1 and is_list(ty):
                 return (("list", ty[1]), "(rev %s)" % t)
@@ -1092,6 +1132,11 @@ class Fn:
 
     def call(self, node, env):
         f = node.func
+        if self.builtin_call(node, "int", env, 2) and const_int(node.args[1]) == 2:
+            ty, t = self.ex(node.args[0], env)              # int(s, 2): ValueError for text that is no binary literal
+            if ty != "str":
+                bad(node, "int(x, 2) of %s" % show(ty))
+            return ("out", "int", "(py_int_o 2 %s)" % t)
         if isinstance(f, ast.Name) and f.id not in env and not self.mod.toplevel(f.id) and f.id in ("int", "bool", "min", "max", "iter"):
             if node.keywords or len(node.args) != (2 if f.id in ("min", "max") else 1):
                 bad(node, "%s() with an unsupported argument list" % f.id)
@@ -1131,11 +1176,34 @@ class Fn:
                 bad(node, "iter_iprange of something other than two IPAddress objects")
             step = self.int_(node.args[2], env) if len(node.args) == 3 else "1"
             return ("iterator", "(ItIprange %s %s %s %s %s)" % (a[0], a[2], b[0], b[2], step))
+        if self.builtin_call(node, "bin", env, 1):
+            return ("str", "(py_bin %s)" % self.int_(node.args[0], env))
+        if isinstance(f, ast.Attribute) and f.attr in ("replace", "startswith") and not node.keywords and not (
+                isinstance(f.value, ast.Name) and f.value.id not in env):
+            ty, t = self.ex(f.value, env)
+            args = [self.ex(x, env) for x in node.args]
+            if ty != "str" or any(a[0] != "str" for a in args) or len(args) != (2 if f.attr == "replace" else 1):
+                bad(node, "%s() on something other than strings" % f.attr)
+            return ("str", "(replace %s %s %s)" % (args[0][1], args[1][1], t)) if f.attr == "replace" else (
+                "bool", "(starts_with %s %s)" % (args[0][1], t))
+        if (isinstance(f, ast.Attribute) and f.attr == "issuperset" and isinstance(f.value, ast.Name) and f.value.id not in env
+                and len(node.args) == 1 and not node.keywords):
+            ty, t = self.ex(node.args[0], env)              # CHARSET.issuperset(s) for a module-level frozenset of characters
+            if ty != "str":
+                bad(node, "issuperset() of %s" % show(ty))
+            return ("bool", "(py_chars_in [%s] %s)" % ("; ".join(self.tr.charset(f.value.id, node)), t))
         if self.builtin_call(node, "len", env, 1) or self.builtin_call(node, "tuple", env, 1):
+            if f.id == "len":
+                snap, pre0 = self.snapshot(), list(self.pre)
+                ty, t = self.ex(node.args[0], env)
+                if ty == "str":
+                    return ("int", "(str_len %s)" % t)
+                self.restore(snap)
+                self.pre = pre0
             ty, t = self.listexpr(node.args[0], env) if f.id == "tuple" else self.ex(node.args[0], env)
             if not is_list(ty):
                 bad(node, "%s() of %s" % (f.id, show(ty)))
-            return ("int", "(Z.of_nat (length %s))" % t) if f.id == "len" else (ty, t)     # a tuple of a list: the same Coq list
+            return ("int", "(Z.of_nat (List.length %s))" % t) if f.id == "len" else (ty, t)     # a tuple of a list: the same Coq list
         if isinstance(f, ast.Name) and f.id not in env and not self.mod.toplevel(f.id) and f.id in ("sorted", "set", "list"):
             if f.id == "sorted":
                 return self.sorted_(node, env)
@@ -1207,6 +1275,11 @@ class Fn:
         if isinstance(s, ast.Try):
             if len(s.handlers) == 1 and dotted(s.handlers[0].type) == "StopIteration":
                 return self.try_next(s, env, go)
+            if (len(s.handlers) == 1 and dotted(s.handlers[0].type) == "NameError" and "NameError" not in env and not s.orelse
+                    and not s.finalbody and not self.mod.toplevel("NameError") and self.only_builtins(s.body, env)):
+                return self.block(s.body + rest, env, k, after)     # the body reads known names only: the handler is dead code
+            if len(s.handlers) == 1 and len(s.handlers[0].body) == 1 and isinstance(s.handlers[0].body[0], ast.Pass):
+                return self.try_pass(s, rest, env, k, after)
             return self.try_except(s, rest, env, k, after)
         if isinstance(s, (ast.Break, ast.Continue)):
             h = env["@break" if isinstance(s, ast.Break) else "@continue"]
@@ -1442,6 +1515,13 @@ class Fn:
             old, dflt = env[x][1], self.tr.dialect_const(a.value.id, a)
             cn, env = self.bind_local(a.targets[0], x, "dialect", env, t)
             return ("let", cn, "(match %s with Some h0 => h0 | None => %s end)" % (old, dflt), self.block(rest, env, k, after))
+        if (isinstance(t, ast.Call) and dotted(t.func) == "_is_str" and "_is_str" not in env
+                and self.mod.imports.get("_is_str") == "netaddr.compat._is_str" and compat_lambda_isinstance("_is_str")):
+            # _is_str(x): true for a value the translator types as text, false for an int
+            if len(t.args) != 1 or t.keywords or not isinstance(t.args[0], ast.Name) or env.get(t.args[0].id, ("",))[0] not in ("str", "int"):
+                bad(s, "_is_str test on something that is neither text nor an int")
+            yes = (env[t.args[0].id][0] == "str") != neg
+            return self.block((s.body if yes else s.orelse) + rest, env, k, after)
         if isinstance(t, ast.Call) and dotted(t.func) == "hasattr" and "hasattr" not in env and not self.mod.toplevel("hasattr"):
             # hasattr(<parameter>, '<name>'): decided by the declared type of the parameter
             if not (len(t.args) == 2 and not t.keywords and isinstance(t.args[0], ast.Name) and t.args[0].id in [x.arg for x in self.f.args.args]
@@ -1566,6 +1646,28 @@ class Fn:
             return tuple(close(x) if isinstance(x, tuple) and x and isinstance(x[0], str) else
                          [(kd, ns, close(sub)) for kd, ns, sub in x] if isinstance(x, list) else x for x in ir)
         return ("try", h.type.id, e2, pattern(cns), close(body), self.block(rest, env, k, after))
+
+    def only_builtins(self, stmts, env):
+        """does every name read by the statements denote a local or one of the builtins the translator knows (so that no
+        NameError can arise)?"""
+        known = ("bin", "int", "len", "bool", "min", "max")
+        return all(n.id in env or (n.id in known and not self.mod.toplevel(n.id)) for st in stmts for n in ast.walk(st)
+                   if isinstance(n, ast.Name) and isinstance(n.ctx, ast.Load))
+
+    def try_pass(self, s, rest, env, k, after):
+        """try: body / except E: pass, where body assigns nothing (it may `return`):
+        do h <- py_except_pass E (body: inl <returned value> | inr tt at its end); match h with inl r => r | inr _ => rest"""
+        h = s.handlers[0]
+        exits = (ast.Break, ast.Continue, ast.Try, ast.While, ast.For)
+        if (s.orelse or s.finalbody or not isinstance(h.type, ast.Name) or h.type.id not in EXN or h.type.id in env or h.name
+                or (self.mod.toplevel(h.type.id) and h.type.id not in self.mod.imports) or env["@mut"] or env["@break"] is not None
+                or assigned_names(s.body) or any(isinstance(n, exits) for st in s.body for n in ast.walk(st))):
+            bad(s, "try statement other than `try: <if / return / raise, no assignment> / except E: pass` outside loops")
+        benv = dict(env)
+        benv["@break"], benv["@continue"], benv["@lret"] = (lambda e: None), None, True      # `return` inside: the body answers inl
+        body = self.block(s.body, benv, lambda e: ("ret", "@loop", "(inr tt)", False), rest + after)
+        hn, rn = self.fresh(), self.fresh()
+        return ("trypass", h.type.id, hn, rn, body, self.block(rest, env, k, after))
 
     def try_next(self, s, env, go):
         """try: x = [IPNetwork(]_iter_next(it)[)] ... except StopIteration: raise E(...)  ->  match it with [] => Raise E | x :: it => ..."""
@@ -1729,18 +1831,18 @@ class Fn:
     def children(ir):
         k = ir[0]
         return ([ir[3]] if k in ("let", "bind") else [ir[2], ir[3]] if k in ("if", "match", "join") else [ir[4], ir[5]] if k == "next"
-                else [a[2] for a in ir[2]] if k == "omatch" else [ir[4]] if k == "lmatch" else [ir[4], ir[5]] if k == "try" else [])
+                else [a[2] for a in ir[2]] if k == "omatch" else [ir[4]] if k == "lmatch" else [ir[4], ir[5]] if k in ("try", "trypass") else [])
 
     def leaves(self, ir):
         return [ir] if ir[0] in ("ret", "raise") else [x for sub in self.children(ir) for x in self.leaves(sub)]
 
     def effects(self, ir):
         """can evaluating this IR raise (does it have to live in `outcome`)?"""
-        return ir[0] in ("raise", "bind", "next", "try") or (ir[0] == "ret" and ir[1] != "@loop" and ir[3]) or (ir[0] == "lret" and ir[3]) or any(
+        return ir[0] in ("raise", "bind", "next", "try", "trypass") or (ir[0] == "ret" and ir[1] != "@loop" and ir[3]) or (ir[0] == "lret" and ir[3]) or any(
             self.effects(x) for x in self.children(ir))
 
     def finish(self):
-        rets = [l for l in self.leaves(self.ir) if l[0] == "ret"]
+        rets = [l for l in self.leaves(self.ir) if l[0] == "ret" and l[1] != "@loop"]      # (@loop: the end of a try body)
         kinds = [l[1] for l in rets if l[1] != "none"] + self.lrets
         if not kinds:
             bad(self.f, "no return value")
@@ -1775,7 +1877,10 @@ class Fn:
         i2 = ind + "  "
         sub = lambda x, o=oc: self.render(x, i2, o, optional) if x[0] in ("ret", "raise", "jret", "lret") else "(" + self.render(x, i2 + " ", o, optional) + ")"
         if k == "let":
-            return "let %s := %s in\n%s%s" % (ir[1].replace("(", "'(", 1), ir[2], ind, self.render(ir[3], ind, oc, optional))
+            body = self.render(ir[3], ind, oc, optional)
+            if ir[2] == "[]" and re.fullmatch(r"\w+", ir[1]) and not re.search(r"\b%s\b" % re.escape(ir[1]), body):
+                return body                  # an empty list that is never used (its element type cannot be known): dropped
+            return "let %s := %s in\n%s%s" % (ir[1].replace("(", "'(", 1), ir[2], ind, body)
         if k == "bind":
             return "do %s <- %s;\n%s%s" % (ir[1], ir[2], ind, self.render(ir[3], ind, oc, optional))
         if k == "if":
@@ -1796,6 +1901,9 @@ class Fn:
         if k == "try":
             return "do %s <- py_except %s %s\n%s  (%s);\n%s%s" % (ir[3], ir[1], ir[2], ind, self.render(ir[4], ind + "   ", True, False), ind,
                                                                    self.render(ir[5], ind, oc, optional))
+        if k == "trypass":
+            return "do %s <- py_except_pass %s\n%s  (%s);\n%smatch %s with\n%s| inl %s => Ok %s\n%s| inr _ =>\n%s%s\n%send" % (
+                ir[2], ir[1], ind, self.render(ir[4], ind + "   ", True, False), ind, ir[2], ind, ir[3], ir[3], ind, i2, sub(ir[5]), ind)
         if k == "lmatch":
             return "match %s with\n%s| inl %s => %s\n%s| inr %s =>\n%s%s\n%send" % (
                 ir[1], ind, ir[2], ("Ok %s" if oc else "%s") % ir[2], ind, ir[3], i2, sub(ir[4]), ind)
@@ -1902,6 +2010,19 @@ class Translator:
             self.consts[cn] = ("(* %s: %s = %s, line %d: (word_size, num_words) of that class *)\nDefinition %s : Z * Z := (%d, %d).\n"
                                % (self.fn, name, ds[0].value.id, ds[0].lineno, cn, attrs["word_size"], attrs["num_words"]))
         return cn
+
+    def charset(self, name, node):
+        """the characters of the module-level `name = frozenset([...])` (bound once; one-character strings, and ints -- the byte
+        values that iterating over a bytes object yields -- which never equal a character of a str and are left out)"""
+        ds = [a for a in self.mod.tree.body for n in ast.walk(a) if isinstance(n, ast.Name) and n.id == name and isinstance(n.ctx, ast.Store)]
+        v = ds[0].value if len(ds) == 1 and isinstance(ds[0], ast.Assign) and len(ds[0].targets) == 1 else None
+        if not (isinstance(v, ast.Call) and dotted(v.func) == "frozenset" and not self.mod.toplevel("frozenset") and len(v.args) == 1
+                and not v.keywords and isinstance(v.args[0], (ast.List, ast.Tuple, ast.Set)) and not self.mod.imports.get(name)
+                and all(isinstance(x, ast.Constant) and (isinstance(x.value, int) and not isinstance(x.value, bool) or (
+                    isinstance(x.value, str) and len(x.value) == 1 and 32 <= ord(x.value) < 127 and x.value != '"'))
+                        for x in v.args[0].elts)):
+            bad(node, "%s is not bound once, at top level, to frozenset([<characters and ints>])" % name)
+        return ['"%s"%%char' % x.value for x in v.args[0].elts if isinstance(x.value, str)]
 
     def class_tuple(self, node):
         """the int literals of the class-level tuple C.ATTR (bound once in the body of C, to a tuple of int literals)"""
@@ -2055,6 +2176,7 @@ def generate():
         consts = constants(UNIT_STRATEGY[ofn]) if ofn in UNIT_STRATEGY else []
         consts += [t.consts[c] for c in sorted(t.consts)] + ([UNIT_PREAMBLE[ofn]] if ofn in UNIT_PREAMBLE else [])
         text = HEAD % (fn + "".join(", " + f for _, f in UNIT_STRATEGY.get(ofn, ())), "", req + "".join(" Gen." + u[:-2] for u in uses)) + (
+            "From Coq Require Import String Ascii.\n\n" if "Base.PyStr" in req else "") + (
             "\n".join(consts) + "\n" if consts else "") + "\n".join(t.done[k].body_text for k in t.order) + ("\n" + fails if fails else "")
         text.encode("ascii")
         out[ofn] = text
